@@ -1,5 +1,6 @@
 import CgtModel.Report
 import CgtModel.Props.C02
+import CgtModel.Lemmas.SpecPerm
 /-! # C06 — the report does not depend on line order, file split or fill splitting
 
 Full statement: permuting the input lines, distributing them over files, or recording one trade as
@@ -16,6 +17,12 @@ Proved here (partial — what is missing is listed at the end):
   on how BUY, SELL, SPLIT and cost-event lines interleave;
 * `C06_run_factors` — the whole run depends on the input only through the per-security day lists
   `daysOf t (preprocess l)`.
+* `C06_statute_permutation_invariant`, `C06_statute_fill_invariant` — the independent statutory
+  evaluation (`Spec`, the oracle C01 compares the real matcher with on every run) is invariant under
+  every permutation of the input lines, for every ledger with valid dates, and absorbs two same-day
+  fills exactly as the one trade with the same total quantity, consideration and fees. Together
+  with C01's equality "matcher = Spec" (evaluated on the real code, not proved) this is the
+  property; what remains unproved is that equality, not the invariance.
 Not proved: that `daysOf t (preprocess l)` is invariant under permutation of `l` (stable sort +
 adjacent merge + coalescing + grouping commute with permutation up to the order of same-day SELL
 lines). The check exercises exactly that on the real code: every generated ledger is re-run under
@@ -84,5 +91,26 @@ theorem C06_run_factors (w : Int) (l l' : List Tx)
     (hd : ∀ t, daysOf t (preprocess l) = daysOf t (preprocess l')) : run w l = run w l' := by
   unfold run runPre
   simp only [ht, hd]
+
+/-- **the statutory evaluation depends only on the set of lines**: for every ledger whose dates are
+    valid (all the parser lets through) and every permutation of its lines, every security's legs,
+    costs, gains and closing holding under s105/s106A/s104 are the same -/
+theorem C06_statute_permutation_invariant (w : Int) (l l' : List Tx) (hp : l.Perm l') (hd : Spec.DatesOk l)
+    (ticker : String) : Spec.identify w ticker l = Spec.identify w ticker l' :=
+  Spec.identify_perm w ticker l l' hp hd
+
+/-- … and a trade recorded as two same-day fills with the same total quantity, consideration
+    (quantity × price) and fees is absorbed into the day exactly as the single trade -/
+theorem C06_statute_fill_invariant (d : Spec.SDay) (q1 p1 f1 q2 p2 f2 q p f : Rat)
+    (hq : q1 + q2 = q) (hc : q1 * p1 + q2 * p2 = q * p) (hf : f1 + f2 = f) :
+    (d.absorb (.buy q1 p1 f1)).absorb (.buy q2 p2 f2) = d.absorb (.buy q p f) ∧
+    (d.absorb (.sell q1 p1 f1)).absorb (.sell q2 p2 f2) = d.absorb (.sell q p f) :=
+  ⟨Spec.absorb_fills_buy d q1 p1 f1 q2 p2 f2 q p f hq hc hf, Spec.absorb_fills_sell d q1 p1 f1 q2 p2 f2 q p f hq hc hf⟩
+
+-- non-vacuity: two orders of a three-line ledger
+example : Spec.DatesOk [⟨⟨2024, 2, 29⟩, "A", .buy 10 2 1⟩, ⟨⟨2024, 3, 1⟩, "A", .sell 4 3 0⟩] := by
+  intro t ht
+  simp only [List.mem_cons, List.mem_nil_iff, or_false] at ht
+  rcases ht with rfl | rfl <;> exact Date.ok_of_valid _ (by decide) (by decide)
 
 end Cgt.C06
